@@ -377,6 +377,7 @@ var invalidShapes = []string{
 
 func genScenario(t *rapid.T) sim.BScenario {
 	sc := sim.BScenario{Concurrency: rapid.SampledFrom([]int{0, 1, 2, 8}).Draw(t, "limit"), Salt: rapid.Uint64().Draw(t, "salt")}
+	sc.AllowPush = rapid.IntRange(0, 2).Draw(t, "push") == 0
 	if rapid.IntRange(0, 9).Draw(t, "nohooks") == 0 {
 		sc.NoHooks = true
 	}
